@@ -25,6 +25,7 @@ type memConn struct {
 	maxRead int
 	reads   int
 	writes  [][]byte
+	wlens   []int
 	closes  int
 }
 
@@ -61,8 +62,15 @@ func (c *memConn) Read(p []byte) (int, error) {
 func (c *memConn) Write(p []byte) (int, error) {
 	c.mu.Lock()
 	closed := c.closed
-	pkt := append([]byte{}, p...)
+	var pkt []byte
+	if len(p) > 1<<20 {
+		// very large packets are logged as a prefix; the full length is kept aside
+		pkt = append([]byte{}, p[:64]...)
+	} else {
+		pkt = append([]byte{}, p...)
+	}
 	c.writes = append(c.writes, pkt)
+	c.wlens = append(c.wlens, len(p))
 	c.mu.Unlock()
 	if closed {
 		if c.onWrite != nil {
